@@ -133,17 +133,6 @@ theorem deliver_claim_cases (ord : List Group → List Group) (vals : List Valid
     have : validateBasic (.claim m) = false := by simpa using hv
     exact ⟨.err .validate, by simp [this]⟩
 
-/-- status of the prophecy `id` in an oracle state; an absent prophecy counts as pending -/
-def statusOf (o : OState) (id : String) : StatusText :=
-  match getProphecy o.prophecies id with
-  | some p => p.status
-  | none => .pending
-
-def finalOf (o : OState) (id : String) : Content :=
-  match getProphecy o.prophecies id with
-  | some p => p.final
-  | none => .empty
-
 theorem claimed_id (ord : List Group → List Group) (vals : List Validator) (st : OState) (c : Claim) :
     (claimed ord vals st c).id = c.id := by
   unfold claimed processCompletion
@@ -171,14 +160,6 @@ end Sif.EthBridge
 
 namespace Sif.EthBridge
 open Sif.Oracle Sif.Bank Sif.Spec.C06
-
-def Out.isOk : Out → Bool
-  | .failed _ => false
-  | _ => true
-
-def Msg.isClaim : Msg → Bool
-  | .claim _ => true
-  | _ => false
 
 theorem lock_ok_frame {s s' : BState} {m : PegMsg} {e : Event} (h : lock s m = .ok (s', e)) :
     s'.oracle = s.oracle ∧ s'.peggy = s.peggy ∧ s'.paused = s.paused ∧ s'.cethReceiver = s.cethReceiver ∧
@@ -269,5 +250,112 @@ theorem deliver_nonclaim_prophecies (ord : List Group → List Group) (vals : Li
           · rename_i o ho
             cases hy
             exact (oracle_updateWhiteList_ok ho).1
+
+end Sif.EthBridge
+
+namespace Sif.EthBridge
+open Sif.Oracle Sif.Bank Sif.Spec.C06
+
+/-- a prophecy that is not pending is not touched by any delivered message -/
+theorem deliver_nonpending_stable (ord : List Group → List Group) (vals : List Validator) (s : BState) (m : Msg) (id : String)
+    (h : statusOf s.oracle id ≠ .pending) :
+    getProphecy (deliver ord vals s m).1.oracle.prophecies id = getProphecy s.oracle.prophecies id := by
+  cases m with
+  | claim cm =>
+    rcases deliver_claim_cases ord vals s cm with ⟨f, hd⟩ | ⟨s', status, hc, hd⟩
+    · rw [hd]
+    · rw [hd]
+      obtain ⟨o, fin, hp, eo, _⟩ := createClaim_ok hc
+      simp only
+      rw [eo]
+      by_cases hid : (claimOf cm).id = id
+      · exact (h (hid ▸ (processClaim_status hp).1)).elim
+      · -- a claim about another prophecy
+        obtain ⟨_, _, _, _, _, e1, _, _⟩ := processClaim_ok hp
+        rw [e1]
+        apply getProphecy_setProphecy_other
+        rw [claimed_id]; exact hid
+  | lock pm => rw [deliver_nonclaim_prophecies ord vals s _ rfl]
+  | burn pm => rw [deliver_nonclaim_prophecies ord vals s _ rfl]
+  | pause a p => rw [deliver_nonclaim_prophecies ord vals s _ rfl]
+  | blacklist a l => rw [deliver_nonclaim_prophecies ord vals s _ rfl]
+  | cethReceiver a r => rw [deliver_nonclaim_prophecies ord vals s _ rfl]
+  | rescue a r n => rw [deliver_nonclaim_prophecies ord vals s _ rfl]
+  | whitelist a op v => rw [deliver_nonclaim_prophecies ord vals s _ rfl]
+
+theorem statusOf_congr {o o' : OState} {id : String} (h : getProphecy o'.prophecies id = getProphecy o.prophecies id) :
+    statusOf o' id = statusOf o id ∧ finalOf o' id = finalOf o id := by
+  unfold statusOf finalOf; rw [h]; exact ⟨rfl, rfl⟩
+
+theorem creditFor_cases (ord : List Group → List Group) (w : World) (st : Step) (id : String) :
+    creditFor ord w st id = [] ∨
+    ∃ m c, st = .msg (.claim m) ∧ (claimOf m).id = id ∧ (deliver ord w.vals w.s (.claim m)).2 = .claimed .success ∧
+      creditOf (finalOf (deliver ord w.vals w.s (.claim m)).1.oracle id) = some c ∧ creditFor ord w st id = [c] := by
+  cases st with
+  | setVals v => left; rfl
+  | msg m =>
+    cases m with
+    | claim cm =>
+      by_cases hs : (deliver ord w.vals w.s (.claim cm)).2 = .claimed .success
+      · cases hcr : creditOf (finalOf (deliver ord w.vals w.s (.claim cm)).1.oracle (claimOf cm).id) with
+        | none => left; simp [creditFor, stepCredit, hs, hcr]
+        | some c =>
+          by_cases hid : (claimOf cm).id = id
+          · right
+            subst hid
+            refine ⟨cm, c, rfl, rfl, hs, hcr, ?_⟩
+            simp only [creditFor, stepCredit, hs, if_true, hcr, Option.map_some]
+          · left; simp [creditFor, stepCredit, hs, hcr, hid]
+      · left; simp [creditFor, stepCredit, hs]
+    | lock pm => left; rfl
+    | burn pm => left; rfl
+    | pause a p => left; rfl
+    | blacklist a l => left; rfl
+    | cethReceiver a r => left; rfl
+    | rescue a r n => left; rfl
+    | whitelist a op v => left; rfl
+
+theorem step_prophecy_stable (ord : List Group → List Group) (w : World) (st : Step) (id : String)
+    (h : statusOf w.s.oracle id ≠ .pending) :
+    getProphecy (stepWorld ord w st).s.oracle.prophecies id = getProphecy w.s.oracle.prophecies id := by
+  cases st with
+  | setVals v => rfl
+  | msg m => exact deliver_nonpending_stable ord w.vals w.s m id h
+
+/-- a step that credits for `id` finds the prophecy pending and leaves it SUCCESS -/
+theorem credit_needs_pending {ord : List Group → List Group} {w : World} {m : ClaimMsg}
+    (hs : (deliver ord w.vals w.s (.claim m)).2 = .claimed .success) :
+    statusOf w.s.oracle (claimOf m).id = .pending ∧ statusOf (deliver ord w.vals w.s (.claim m)).1.oracle (claimOf m).id = .success := by
+  rcases deliver_claim_cases ord w.vals w.s m with ⟨f, hd⟩ | ⟨s', status, hc, hd⟩
+  · rw [hd] at hs; cases hs
+  · rw [hd] at hs ⊢
+    cases hs
+    obtain ⟨o, fin, hp, eo, _⟩ := createClaim_ok hc
+    obtain ⟨sb, sa, _⟩ := processClaim_status hp
+    simp only
+    rw [eo]
+    exact ⟨sb, sa⟩
+
+/-- once a prophecy is not pending, no history changes it or credits anything for it -/
+theorem run_nonpending_stable (ord : List Group → List Group) (steps : List Step) (w : World) (id : String)
+    (h : statusOf w.s.oracle id ≠ .pending) :
+    getProphecy (run ord w steps).s.oracle.prophecies id = getProphecy w.s.oracle.prophecies id ∧
+    creditsOf ord w steps id = [] := by
+  induction steps generalizing w with
+  | nil => exact ⟨rfl, rfl⟩
+  | cons st rest ih =>
+    have e1 := step_prophecy_stable ord w st id h
+    have e2 : creditFor ord w st id = [] := by
+      rcases creditFor_cases ord w st id with e | ⟨m, c, _, hid, hs, _, _⟩
+      · exact e
+      · exact (h (hid ▸ (credit_needs_pending hs).1)).elim
+    have h' : statusOf (stepWorld ord w st).s.oracle id ≠ .pending := by
+      rw [(statusOf_congr e1).1]; exact h
+    obtain ⟨i1, i2⟩ := ih (stepWorld ord w st) h'
+    refine ⟨?_, ?_⟩
+    · show getProphecy (run ord (stepWorld ord w st) rest).s.oracle.prophecies id = _
+      rw [i1, e1]
+    · simp only [creditsOf]
+      rw [e2, i2]; rfl
 
 end Sif.EthBridge
